@@ -10,6 +10,7 @@ import (
 	"io/ioutil"
 	"os"
 	"path"
+	"strings"
 	"sync"
 
 	"go.uber.org/zap"
@@ -66,6 +67,9 @@ func (a *Auth) generatePassword(password string) (hashedPassword string, err err
 	case SHA256:
 		h = sha256.New()
 	case Bcrypt:
+		if !bcryptUsable(password) {
+			return "", errors.New("bcrypt: password is longer than 72 bytes or contains a NUL byte")
+		}
 		pwd, err := bcrypt.GenerateFromPassword([]byte(password), bcrypt.MinCost)
 		return string(pwd), err
 	default:
@@ -78,6 +82,13 @@ func (a *Auth) generatePassword(password string) (hashedPassword string, err err
 	}
 	rs := h.Sum(nil)
 	return hex.EncodeToString(rs), nil
+}
+
+// bcryptUsable reports whether bcrypt distinguishes the password from every other one: it only looks at the first
+// 72 bytes, and it expands the key cyclically with a NUL byte appended, so that "p", "p\x00p", "p\x00p\x00p" ... are
+// all the same key. Passwords that are longer or contain a NUL byte are never stored and never match.
+func bcryptUsable(password string) bool {
+	return len(password) <= 72 && strings.IndexByte(password, 0) < 0
 }
 
 func (a *Auth) mustEmbedUnimplementedAccountServiceServer() {
@@ -103,6 +114,9 @@ func (a *Auth) validate(username, password string) (permitted bool, err error) {
 	case SHA256:
 		h = sha256.New()
 	case Bcrypt:
+		if !bcryptUsable(password) {
+			return false, nil
+		}
 		return bcrypt.CompareHashAndPassword([]byte(hashedPassword), []byte(password)) == nil, nil
 	default:
 		// just in case.
